@@ -842,7 +842,36 @@ func (x *Exec) loopEnv(st *State, fr *Frame, ld *loopDesc) *CEnv {
 	if fr.depth == 0 {
 		tp = x.tparam
 	}
-	return &CEnv{st: st, oldMem: fr.entryMem, vars: vars, tparam: tp, fn: fnKey(fr.fn)}
+	return &CEnv{st: st, oldMem: fr.entryMem, headMem: fr.headMem, vars: vars, cells: x.localCells(st, fr.fn), tparam: tp, fn: fnKey(fr.fn)}
+}
+
+// localCells: the variables of fn that live in memory (address-taken or captured by a function
+// literal), by name: clauses read them in the memory they are evaluated in, so that a loop
+// invariant or a post-condition sees the variable's current value and not the last value some
+// instruction happened to load.
+func (x *Exec) localCells(st *State, fn *ssa.Function) map[string]V {
+	count := map[string]int{}
+	for _, b := range fn.Blocks {
+		for _, in := range b.Instrs {
+			if a, ok := in.(*ssa.Alloc); ok && a.Comment != "" {
+				count[a.Comment]++
+			}
+		}
+	}
+	out := map[string]V{}
+	for _, b := range fn.Blocks {
+		for _, in := range b.Instrs {
+			a, ok := in.(*ssa.Alloc)
+			if !ok || a.Comment == "" || count[a.Comment] != 1 {
+				continue
+			}
+			if v, has := st.env[a]; has && v.K == KPtr {
+				v.Typ = a.Type()
+				out[a.Comment] = v
+			}
+		}
+	}
+	return out
 }
 
 // shadowCheck reports whether obj is the variable of that name visible at the loop position.
@@ -881,7 +910,7 @@ func (x *Exec) checkLoop(st *State, fr *Frame, ld *loopDesc, spec *LoopSpec, ent
 		// each clause is proved on a copy of the state: its witnesses and the instances made for
 		// them do not burden the proofs that follow
 		ps, penv := st, env
-		if fidx >= 0 {
+		if fidx >= 0 && os.Getenv("PLENCVC_NOFORK") == "" {
 			ps = st.fork()
 			penv = x.loopEnv(ps, ps.frames[fidx], ld)
 			penv.prove = true
@@ -963,6 +992,12 @@ func (x *Exec) bindCallRecords(st *State, fn *ssa.Function, vars map[string]V, r
 
 func (x *Exec) calleeSigs(fn *ssa.Function) map[string]*types.Signature {
 	out := map[string]*types.Signature{}
+	// the function literals of fn are executed in place: their callees count as fn's
+	for _, af := range fn.AnonFuncs {
+		for n, s := range x.calleeSigs(af) {
+			out[n] = s
+		}
+	}
 	for _, b := range fn.Blocks {
 		for _, in := range b.Instrs {
 			c, ok := in.(ssa.CallInstruction)
